@@ -6,7 +6,11 @@ cd "$(dirname "$0")"
 export CARGO_NET_OFFLINE=true
 mkdir -p work replays evidence
 [ -f harness/Cargo.lock ] || cp /repo/Cargo.lock harness/Cargo.lock
-(cd lean && lake build LruMem lrudriver)
+# the declaration table of C18 is generated from /repo's source (never taken from a previous run)
+python3 tools/decls.py /repo/src lean/LruMem/Generated/Decls.lean || echo "setup: decls.py could not translate /repo/src (the C18 check will report it)"
+# the driver must build; the theorems are (re)built and audited by each check — a theorem that no longer
+# holds of a regenerated table is that check's finding, not a setup failure
+(cd lean && lake build lrudriver && (lake build LruMem || echo "setup: some Lean modules did not build (reported by the checks concerned)"))
 (cd harness && (cargo build --release --offline || cargo build --release --offline --no-default-features) && (cargo build --offline || cargo build --offline --no-default-features))
-# the builds that instantiate the cache with key / value types without drop glue (used by several checks)
+# the builds that instantiate the cache with key / value types without drop glue (used by every check)
 (cd harness && for v in plain-v plain-k; do cargo build --release --offline --features $v --target-dir target-$v || true; done; cargo build --release --offline --features plain-v,plain-k --target-dir target-plain-kv || true)
